@@ -77,8 +77,9 @@ def correspondence(rep, tag, binary, cases, label, nontrivial=None, oracle=None,
         rep.count_case((c, r), nontrivial(c, r) if nontrivial else True)
         if r == [-1]:
             raise sfv.CheckError("harness rejected case %r" % (c[:40],))
-        if r == [-2]:
-            rep.violation({"kind": "oracle", "what": "harness process died (abort / stack overflow / kill)",
+        if r == [-2] or r == [-5]:
+            rep.violation({"kind": "oracle", "what": "harness process died (abort / stack overflow / kill)" if r == [-2] else
+                           "the implementation did not return within %d s on this input (hang)" % sfv.IMPL_CHUNK_TIMEOUT,
                            "case_kind": label, "case": c})
             n_oracle_fail += 1
             continue
